@@ -36,6 +36,7 @@ package kvstore
 // evictTable drains table t into the active table. The active table is never drained into itself: it is retired
 // first, so the entries taken out of t are re-inserted somewhere else before they are deleted from t.
 //@ func (k *KVStore) evictTable(t *table.Table) error
-//@   props C11 C20
+//@   props C11 C20 C12
 //@   requires #inv_in: k.inv() && t != nil && t.inv() && k.tableSize <= 4611686018427387904
 //@   atcall table\.Table\)\.Range$ requires #the_drained_table_is_not_the_active_one [C11 C20]: len(k.tables) > 0 ==> t != k.tables[len(k.tables)-1]
+//@   atcall table\.Table\)\.Reset$ requires #unregistered_before_it_is_reset [C12 C11]: k.tablesByCoefficient != nil && !(t.coefficient in k.tablesByCoefficient)
